@@ -18,6 +18,6 @@ RTExport ==
 DumpModels == {Cat.models[i].id : i \in {j \in DOMAIN Cat.models : Cat.models[j].dump}}
 QuickDump == {"strings", "strcoll", "scalarvals", "defaults", "inverse", "plain",
               "extra", "enum_str", "hier", "hooks", "parsed", "dashed_sav", "mixin", "multi",
-              "optreq", "nested", "lists", "nullswe", "samename", "private", "longstr", "ydef", "strenum", "ystr", "lastenum", "underscore", "indexrt", "defextra"} \cup
+              "optreq", "nested", "lists", "nullswe", "samename", "private", "longstr", "ydef", "strenum", "ystr", "lastenum", "underscore", "indexrt", "defextra", "treeswe", "extramid", "pathdate", "deepcont", "diamond", "lackparam"} \cup
              {Cat.models[i].id : i \in {j \in DOMAIN Cat.models : Cat.models[j].family = "gen"}}
 =============================================================================
